@@ -13,6 +13,7 @@ import (
 	"strings"
 
 	hg "github.com/mosaicnetworks/babble/src/hashgraph"
+	"github.com/mosaicnetworks/babble/src/peers"
 	"verifharness/hx"
 )
 
@@ -22,6 +23,7 @@ type simcfg struct {
 	dyn      bool
 	fairTail int
 	cache    int
+	faults   bool
 }
 
 type hist struct {
@@ -36,6 +38,13 @@ type hist struct {
 	actions          map[string]int
 	submitted        map[int][]int // node -> tx serials accepted by that node
 	sigsPrev         map[string]map[string]bool
+	genesis          []int
+	faults           map[int]*hx.FaultStore
+	pendingJoins     map[int]bool // key ordinals with a join request in flight
+	joined           map[int]bool
+	leaving          map[int]bool
+	nextNodeID       int
+	weights          []float64
 }
 
 func (h *hist) pull(a, b *hx.Node, limit int, lose bool) {
@@ -70,8 +79,76 @@ func (h *hist) pull(a, b *hx.Node, limit int, lose bool) {
 
 func (h *hist) after(a *hx.Node, sigPoolRan bool) {
 	before := len(a.Final)
+	if fs := h.faults[a.ID]; fs != nil && fs.Injected > 0 && !a.Faulty {
+		a.Faulty = true
+		fmt.Fprintf(h.w.Out, "F %d\n", a.ID)
+		h.actions["fault-injected"]++
+	}
 	a.AfterAction(sigPoolRan)
 	h.oracles(a, before)
+	h.conservation(a)
+	if h.cfg.dyn {
+		h.peerSetOracle(a)
+		h.membership(a)
+	}
+}
+
+// membership: start the nodes whose join has become effective in a's table; stop leavers
+func (h *hist) membership(a *hx.Node) {
+	all, _ := a.Store.GetAllPeerSets()
+	for r, ps := range all {
+		for _, p := range ps {
+			o := h.w.Ord(p.PubKeyHex)
+			if h.pendingJoins[o] && !h.joined[o] {
+				h.joined[o] = true
+				cur := []int{}
+				for _, q := range ps {
+					cur = append(cur, h.w.Ord(q.PubKeyHex))
+				}
+				nd := h.w.NewNode(h.nextNodeID, o, cur, h.genesis, hg.NewInmemStore(h.cfg.cache))
+				h.nextNodeID++
+				nd.Core.SetAcceptedRound(r)
+				nd.Core.SetHeadAndSeq()
+				h.nodes = append(h.nodes, nd)
+				h.weights = append(h.weights, 1)
+				h.actions["node-joined"]++
+			}
+		}
+	}
+	// a node whose own removal is effective and processed stops gossiping (it would suspend itself)
+	if h.leaving[a.Self] && a.Core.RemovedRound() > 0 && a.Hg.LastConsensusRound != nil && *a.Hg.LastConsensusRound >= a.Core.RemovedRound() {
+		if !a.Silent {
+			a.Silent = true
+			h.actions["node-left"]++
+		}
+	}
+}
+
+func (h *hist) requestJoin(a *hx.Node) {
+	o := h.w.AddKey()
+	p := h.w.Peers[o]
+	itx := hg.NewInternalTransactionJoin(*peers.NewPeer(p.PubKeyHex, p.NetAddr, p.Moniker))
+	itx.Sign(h.w.Privs[o])
+	if h.rng.Intn(5) == 0 {
+		h.w.Refused[h.w.ItxID(&itx)] = true
+		h.actions["join-refused-by-app"]++
+	} else {
+		h.pendingJoins[o] = true
+	}
+	a.Core.AddInternalTransaction(itx)
+	h.actions["join-request"]++
+}
+
+func (h *hist) requestLeave(a *hx.Node) {
+	if h.leaving[a.Self] {
+		return
+	}
+	p := h.w.Peers[a.Self]
+	itx := hg.NewInternalTransactionLeave(*peers.NewPeer(p.PubKeyHex, p.NetAddr, p.Moniker))
+	itx.Sign(h.w.Privs[a.Self])
+	h.leaving[a.Self] = true
+	a.Core.AddInternalTransaction(itx)
+	h.actions["leave-request"]++
 }
 
 // oracles evaluated on the implementation after every action of node a
@@ -163,14 +240,23 @@ func (h *hist) submit(a *hx.Node) {
 func runHistory(out *bufio.Writer, seed int64, hid int, cfg simcfg) (stats map[string]int, viol int) {
 	rng := rand.New(rand.NewSource(seed))
 	w := hx.NewWorld(out)
-	h := &hist{w: w, rng: rng, cfg: cfg, actions: map[string]int{}, submitted: map[int][]int{}, sigsPrev: map[string]map[string]bool{}}
+	h := &hist{w: w, rng: rng, cfg: cfg, actions: map[string]int{}, submitted: map[int][]int{}, sigsPrev: map[string]map[string]bool{},
+		faults: map[int]*hx.FaultStore{}, pendingJoins: map[int]bool{}, joined: map[int]bool{}, leaving: map[int]bool{}}
 	fmt.Fprintf(out, "H %d seed=%d n=%d steps=%d\n", hid, seed, cfg.n, cfg.steps)
 	genesis := []int{}
 	for i := 0; i < cfg.n; i++ {
 		genesis = append(genesis, w.AddKey())
 	}
+	h.genesis = genesis
+	h.nextNodeID = cfg.n
 	for i := 0; i < cfg.n; i++ {
-		nd := w.NewNode(i, i, genesis, genesis, hg.NewInmemStore(cfg.cache))
+		var store hg.Store = hg.NewInmemStore(cfg.cache)
+		if cfg.faults {
+			fs := &hx.FaultStore{Store: store}
+			h.faults[i] = fs
+			store = fs
+		}
+		nd := w.NewNode(i, i, genesis, genesis, store)
 		h.nodes = append(h.nodes, nd)
 	}
 	// some nodes create their first event on their own (monologue), others on their first sync
@@ -180,11 +266,12 @@ func runHistory(out *bufio.Writer, seed int64, hid int, cfg simcfg) (stats map[s
 			h.after(nd, false)
 		}
 	}
-	weights := make([]float64, cfg.n)
-	for i := range weights {
-		weights[i] = []float64{1, 1, 0.3, 0.08}[rng.Intn(4)]
+	h.weights = make([]float64, cfg.n)
+	for i := range h.weights {
+		h.weights[i] = []float64{1, 1, 0.3, 0.08}[rng.Intn(4)]
 	}
 	pick := func() int {
+		weights := h.weights
 		tot := 0.0
 		for i, x := range weights {
 			if !h.nodes[i].Silent {
@@ -220,6 +307,23 @@ func runHistory(out *bufio.Writer, seed int64, hid int, cfg simcfg) (stats map[s
 			h.actions["silenced"] += k
 		}
 		a := h.nodes[pick()]
+		if cfg.dyn && rng.Intn(40) == 0 {
+			live := 0
+			for _, nd := range h.nodes {
+				if !nd.Silent && !h.leaving[nd.Self] {
+					live++
+				}
+			}
+			if rng.Intn(3) > 0 || live <= 2 {
+				h.requestJoin(a)
+			} else {
+				h.requestLeave(a)
+			}
+			continue
+		}
+		if fs := h.faults[a.ID]; fs != nil && rng.Intn(25) == 0 {
+			fs.FailNewEventIn = 1 + rng.Intn(4)
+		}
 		if rng.Float64() < submitRate {
 			h.submit(a)
 			if cfg.n == 1 {
@@ -238,8 +342,11 @@ func runHistory(out *bufio.Writer, seed int64, hid int, cfg simcfg) (stats map[s
 			continue
 		}
 		bi := pick()
-		for bi == a.ID {
+		for tries := 0; h.nodes[bi] == a && tries < 50; tries++ {
 			bi = pick()
+		}
+		if h.nodes[bi] == a {
+			continue
 		}
 		b := h.nodes[bi]
 		limit := -1
@@ -299,6 +406,7 @@ func main() {
 	tail := flag.Int("tail", 2, "fair all-pairs cycles at the end")
 	cache := flag.Int("cache", 10000, "store cache size")
 	dyn := flag.Bool("dyn", false, "joins and leaves")
+	faults := flag.Bool("faults", false, "inject store failures on new-event writes")
 	flag.Parse()
 	out := bufio.NewWriterSize(os.Stdout, 1<<20)
 	defer out.Flush()
@@ -308,7 +416,7 @@ func main() {
 		if i%7 != 0 && n < 3 && *maxn >= 3 {
 			n = 3 + master.Intn(*maxn-2)
 		}
-		cfg := simcfg{n: n, steps: *steps/2 + master.Intn(*steps), dyn: *dyn, fairTail: *tail, cache: *cache}
+		cfg := simcfg{n: n, steps: *steps/2 + master.Intn(*steps), dyn: *dyn, fairTail: *tail, cache: *cache, faults: *faults}
 		runHistory(out, master.Int63(), i, cfg)
 	}
 }
